@@ -461,6 +461,7 @@ var modCache = map[string]*stateAt{}
 
 // headState returns the real state of `ep` with validator modifications `idx:mod;idx:mod` applied:
 // exited (exit_epoch = cur), exiting (exit_epoch = cur+5), inactive (activation = cur+3), young (activation = cur-1),
+// justactive (activation = cur), actnext (activation = cur+1), wdnext (exit cur, withdrawable cur+1),
 // slashed, withdrawn (withdrawable_epoch = cur), unwd (exit cur-1 and withdrawable cur+9: exited, still slashable).
 func (c *netCtx) headState(ep uint64, mods string) *stateAt {
 	base := c.mustAt(ep)
@@ -505,6 +506,14 @@ func (c *netCtx) headState(ep uint64, mods string) *stateAt {
 			err = vv.SetActivationEpoch(common.Epoch(ep + 3))
 		case "young":
 			err = vv.SetActivationEpoch(common.Epoch(ep - 1))
+		case "justactive": // activated in the head's epoch: active and slashable from this epoch on
+			err = vv.SetActivationEpoch(common.Epoch(ep))
+		case "actnext": // activation next epoch: not yet active, not slashable
+			err = vv.SetActivationEpoch(common.Epoch(ep + 1))
+		case "wdnext": // exited, withdrawable next epoch: still slashable in this epoch
+			if err = vv.SetExitEpoch(common.Epoch(ep)); err == nil {
+				err = vv.SetWithdrawableEpoch(common.Epoch(ep + 1))
+			}
 		case "slashed":
 			err = vv.MakeSlashed()
 		case "withdrawn":
